@@ -3,7 +3,15 @@
 (* mpf.core.file_manager.FileManager.save (global busy flag, temp file + os.replace) and the YAML  *)
 (* interface.  Processes: main (SaveAll, Shutdown), writer[i] with the program counter of          *)
 (* DataManager._writing_thread, environment (IoError at the four steps of a file save, Crash of    *)
-(* the whole process at any point).  A writer step is what the real thread does between two of its *)
+(* the whole process at any point).  Fault model: a write can fail in three ways - an injected      *)
+(* fault of kind "io" (an OSError: disk full, permissions, failing rename) or of kind "exc" (any     *)
+(* other exception: ValueError of a broken stream, a bug in a dumper ...) at the copy and at each of *)
+(* the four steps of a file save, or because of the DATA handed to save_all: a version of kind       *)
+(* "norepr" cannot be represented by the YAML dumper (decimal.Decimal, arbitrary objects: the dump   *)
+(* raises after the temp file was opened and before it is complete), a version of kind "nocopy"      *)
+(* cannot even be deep-copied (locks, generators).  The design treats all of them alike: that one    *)
+(* write fails, the data file keeps its complete earlier version, the writer goes on.                *)
+(* A writer step is what the real thread does between two of its                                     *)
 (* blocking / scheduling points:                                                                   *)
 (*   initSleep   time.sleep(min_wait_secs) before the loop                                         *)
 (*   waitDirty   self._dirty.wait(1)                                                               *)
@@ -24,13 +32,20 @@
 (* FinalFlushUsesClearedCopy and StaleYamlEmitterAfterError were repaired in mpf (518babe, 1595980, *)
 (* 163cf22) and are kept as regression deviations: a trace that needs one again is reported under  *)
 (* that name.                                                                                      *)
+(* WriterDiesOnSaveError (a failure inside FileManager.save that the handler of the writer loop    *)
+(* does not catch ends the thread: nothing of that manager is written any more) is not in the code *)
+(* and is kept to name that class of regression; WriterDiesOnCopyError is the same for a failing   *)
+(* copy.deepcopy, which in the code as it is sits outside the try block.                           *)
 EXTENDS Integers, Sequences, FiniteSets, TLC
 CONSTANTS NM,           \* number of data managers
           MaxSaves,     \* budget of SaveAll calls (= number of versions)
-          MaxErrors,    \* budget of injected I/O errors
+          MaxErrors,    \* budget of injected faults (both kinds)
+          MaxBad,       \* budget of versions that cannot be written (kinds norepr, nocopy)
           MaxCrashes,   \* budget of process crashes
           Deviations
 M == 1..NM
+FaultKinds == {"io", "exc"}                \* injected: an OSError / any other exception
+Kinds == {"ok", "norepr", "nocopy"}        \* of a version handed to save_all
 VARIABLES pc,         \* [M -> program counter]
           fin,        \* [M -> BOOLEAN] the writer has left its loop (shutdown flush path)
           dirty,      \* [M -> BOOLEAN] DataManager._dirty
@@ -43,41 +58,44 @@ VARIABLES pc,         \* [M -> program counter]
           poisoned,   \* an exception escaped from a YAML dump in this process
           errSince,   \* [M -> BOOLEAN] an injected error hit the save of the manager's latest data
           who,        \* ghost: who[v] = manager that version v was handed to
+          kind,       \* ghost: kind[v] = kind of version v
           used,       \* deviations this behaviour has made use of
           nerrs, ncrash, act
-vars == <<pc, fin, dirty, data, cp, file, tmp, isBusy, stopper, poisoned, errSince, who, used, nerrs, ncrash, act>>
+vars == <<pc, fin, dirty, data, cp, file, tmp, isBusy, stopper, poisoned, errSince, who, kind, used, nerrs, ncrash, act>>
 
 CS == {"clearDirty", "copy", "saveOpen", "saveWrite", "saveClose", "replace"}
 PCs == {"initSleep", "waitDirty", "waitBusy", "rateSleep", "exited"} \cup CS
 NoTmp == [st |-> "absent", v |-> 0]
 Holders == {i \in M : pc[i] \in CS}
+KindOf(v) == IF v = 0 THEN "ok" ELSE kind[v]
+NBad == Cardinality({v \in 1..Len(kind) : kind[v] # "ok"})
 
 Init == /\ pc = [i \in M |-> "initSleep"] /\ fin = [i \in M |-> FALSE] /\ dirty = [i \in M |-> FALSE]
         /\ data = [i \in M |-> 0] /\ cp = [i \in M |-> 0] /\ file = [i \in M |-> 0] /\ tmp = [i \in M |-> NoTmp]
         /\ isBusy = FALSE /\ stopper = FALSE /\ poisoned = FALSE /\ errSince = [i \in M |-> FALSE]
-        /\ who = <<>> /\ used = {} /\ nerrs = 0 /\ ncrash = 0 /\ act = [op |-> "init"]
+        /\ who = <<>> /\ kind = <<>> /\ used = {} /\ nerrs = 0 /\ ncrash = 0 /\ act = [op |-> "init"]
 
 \* ---------------------------------------------------------------------------------------- main
-SaveAll(i) ==
-    /\ ~stopper /\ Len(who) < MaxSaves
-    /\ data' = [data EXCEPT ![i] = Len(who) + 1] /\ who' = Append(who, i)
+SaveAll(i, k) ==
+    /\ ~stopper /\ Len(who) < MaxSaves /\ (k # "ok" => NBad < MaxBad)
+    /\ data' = [data EXCEPT ![i] = Len(who) + 1] /\ who' = Append(who, i) /\ kind' = Append(kind, k)
     /\ dirty' = [dirty EXCEPT ![i] = TRUE] /\ errSince' = [errSince EXCEPT ![i] = FALSE]
-    /\ act' = [op |-> "save", i |-> i, v |-> Len(who) + 1]
+    /\ act' = [op |-> "save", i |-> i, v |-> Len(who) + 1, k |-> k]
     /\ UNCHANGED <<pc, fin, cp, file, tmp, isBusy, stopper, poisoned, used, nerrs, ncrash>>
 Shutdown ==
     /\ ~stopper /\ stopper' = TRUE /\ act' = [op |-> "shutdown"]
-    /\ UNCHANGED <<pc, fin, dirty, data, cp, file, tmp, isBusy, poisoned, errSince, who, used, nerrs, ncrash>>
+    /\ UNCHANGED <<pc, fin, dirty, data, cp, file, tmp, isBusy, poisoned, errSince, who, kind, used, nerrs, ncrash>>
 \* the process dies; only the files survive; a new process loads them
 Crash ==
     /\ ncrash < MaxCrashes /\ ncrash' = ncrash + 1
     /\ pc' = [i \in M |-> "initSleep"] /\ fin' = [i \in M |-> FALSE] /\ dirty' = [i \in M |-> FALSE]
     /\ data' = file /\ cp' = [i \in M |-> 0] /\ isBusy' = FALSE /\ stopper' = FALSE /\ poisoned' = FALSE
     /\ errSince' = [i \in M |-> FALSE] /\ act' = [op |-> "crash"]
-    /\ UNCHANGED <<file, tmp, who, used, nerrs>>
+    /\ UNCHANGED <<file, tmp, who, kind, used, nerrs>>
 \* harness aid to look behind a leaked flag: never enabled in the design (isBusy => some holder)
 ForceRelease ==
     /\ isBusy /\ Holders = {} /\ isBusy' = FALSE /\ act' = [op |-> "unwedge"]
-    /\ UNCHANGED <<pc, fin, dirty, data, cp, file, tmp, stopper, poisoned, errSince, who, used, nerrs, ncrash>>
+    /\ UNCHANGED <<pc, fin, dirty, data, cp, file, tmp, stopper, poisoned, errSince, who, kind, used, nerrs, ncrash>>
 
 \* -------------------------------------------------------------------------------------- writer
 WAct(i, f) == act' = [op |-> "w", i |-> i, pc |-> pc[i], fault |-> f]
@@ -91,11 +109,11 @@ LoopCheck(i) ==
                /\ pc' = [pc EXCEPT ![i] = "exited"] /\ used' = used \cup {"FinalFlushUsesClearedCopy"}
 SleepDone(i) ==
     /\ pc[i] \in {"initSleep", "rateSleep"} /\ LoopCheck(i) /\ WAct(i, "none")
-    /\ UNCHANGED <<dirty, data, cp, file, tmp, isBusy, stopper, poisoned, errSince, who, nerrs, ncrash>>
+    /\ UNCHANGED <<dirty, data, cp, file, tmp, isBusy, stopper, poisoned, errSince, who, kind, nerrs, ncrash>>
 WaitDirty(i) ==
     /\ pc[i] = "waitDirty" /\ WAct(i, "none")
     /\ IF dirty[i] THEN pc' = [pc EXCEPT ![i] = "waitBusy"] /\ UNCHANGED <<fin, used>> ELSE LoopCheck(i)
-    /\ UNCHANGED <<dirty, data, cp, file, tmp, isBusy, stopper, poisoned, errSince, who, nerrs, ncrash>>
+    /\ UNCHANGED <<dirty, data, cp, file, tmp, isBusy, stopper, poisoned, errSince, who, kind, nerrs, ncrash>>
 WaitBusy(i) ==
     /\ pc[i] = "waitBusy" /\ WAct(i, "none")
     /\ \/ isBusy /\ UNCHANGED <<pc, isBusy, used>>                          \* poll again after 0.2 s
@@ -103,68 +121,98 @@ WaitBusy(i) ==
        \* code as is: the flag is only set at the entry of FileManager.save, two steps later
        \/ /\ ~isBusy /\ "BusyCheckThenAct" \in Deviations
           /\ pc' = [pc EXCEPT ![i] = "clearDirty"] /\ UNCHANGED isBusy /\ used' = used \cup {"BusyCheckThenAct"}
-    /\ UNCHANGED <<fin, dirty, data, cp, file, tmp, stopper, poisoned, errSince, who, nerrs, ncrash>>
+    /\ UNCHANGED <<fin, dirty, data, cp, file, tmp, stopper, poisoned, errSince, who, kind, nerrs, ncrash>>
 \* `self._dirty.clear(); data = copy.deepcopy(self.data)`: the reference self.data is read right after the clear
 \* (save_all replaces the dict, it does not mutate it), the deep copy of that object is the next step
 ClearDirty(i) ==
     /\ pc[i] = "clearDirty" /\ WAct(i, "none")
     /\ dirty' = [dirty EXCEPT ![i] = FALSE] /\ cp' = [cp EXCEPT ![i] = data[i]] /\ pc' = [pc EXCEPT ![i] = "copy"]
-    /\ UNCHANGED <<fin, data, file, tmp, isBusy, stopper, poisoned, errSince, who, used, nerrs, ncrash>>
-Copy(i) ==
-    /\ pc[i] = "copy" /\ WAct(i, "none")
-    /\ isBusy' = TRUE /\ pc' = [pc EXCEPT ![i] = "saveOpen"]
-    /\ UNCHANGED <<fin, dirty, data, cp, file, tmp, stopper, poisoned, errSince, who, used, nerrs, ncrash>>
-\* an exception leaves FileManager.save: back to the loop (or end of the thread on the flush path)
-ErrExit(i, extra) ==
-    /\ pc' = [pc EXCEPT ![i] = IF fin[i] THEN "exited" ELSE "rateSleep"]
+    /\ UNCHANGED <<fin, data, file, tmp, isBusy, stopper, poisoned, errSince, who, kind, used, nerrs, ncrash>>
+\* the end of a failed write: back to the loop (or end of the thread on the flush path, which has no handler)
+Resume(i) == pc' = [pc EXCEPT ![i] = IF fin[i] THEN "exited" ELSE "rateSleep"]
+\* the failed write hit the save of the manager's latest data: that version is excused from being on disk
+Excuse(i) == errSince' = [errSince EXCEPT ![i] = @ \/ (cp[i] = data[i])]
+\* copy.deepcopy raised (injected, or a version that cannot be copied): FileManager.save was not entered
+CopyErr(i) ==
     /\ cp' = [cp EXCEPT ![i] = 0]
-    /\ \/ isBusy' = FALSE /\ used' = used \cup extra
-       \* code as is: is_busy stays True when the interface's save (or os.replace) raises
-       \/ /\ "BusyFlagLeaksOnError" \in Deviations /\ UNCHANGED isBusy
-          /\ used' = used \cup extra \cup {"BusyFlagLeaksOnError"}
-Injected(i) ==
-    /\ nerrs < MaxErrors /\ nerrs' = nerrs + 1 /\ WAct(i, "io")
-    /\ errSince' = [errSince EXCEPT ![i] = @ \/ (cp[i] = data[i])]
+    /\ \/ /\ Resume(i)
+          /\ \/ isBusy' = FALSE /\ UNCHANGED used                 \* the flag taken by the test-and-set is given back
+             \/ /\ "BusyCheckThenAct" \in Deviations /\ UNCHANGED isBusy      \* code as is: not set yet
+                /\ used' = used \cup {"BusyCheckThenAct"}
+       \* code as is: the deepcopy is outside the try block of the writer loop; the exception ends the thread
+       \/ /\ "WriterDiesOnCopyError" \in Deviations /\ ~fin[i] /\ pc' = [pc EXCEPT ![i] = "exited"]
+          /\ \/ isBusy' = FALSE /\ used' = used \cup {"WriterDiesOnCopyError"}
+             \/ /\ "BusyCheckThenAct" \in Deviations /\ UNCHANGED isBusy
+                /\ used' = used \cup {"WriterDiesOnCopyError", "BusyCheckThenAct"}
+\* an exception leaves FileManager.save
+ErrExit(i, extra) ==
+    /\ cp' = [cp EXCEPT ![i] = 0]
+    /\ \/ /\ Resume(i)
+          /\ \/ isBusy' = FALSE /\ used' = used \cup extra
+             \* code as it was: is_busy stays True when the interface's save (or os.replace) raises
+             \/ /\ "BusyFlagLeaksOnError" \in Deviations /\ UNCHANGED isBusy
+                /\ used' = used \cup extra \cup {"BusyFlagLeaksOnError"}
+       \* a handler in the writer loop that does not catch this failure: the exception ends the thread for good
+       \/ /\ "WriterDiesOnSaveError" \in Deviations /\ ~fin[i] /\ pc' = [pc EXCEPT ![i] = "exited"]
+          /\ isBusy' = FALSE /\ used' = used \cup extra \cup {"WriterDiesOnSaveError"}
+Injected(i, f) ==
+    /\ f \in FaultKinds /\ nerrs < MaxErrors /\ nerrs' = nerrs + 1 /\ WAct(i, f) /\ Excuse(i)
+\* the data itself makes this step fail (nothing injected)
+DataErr(i) == WAct(i, "none") /\ Excuse(i) /\ UNCHANGED nerrs
+Copy(i, f) ==
+    /\ pc[i] = "copy"
+    /\ \/ /\ f = "none" /\ KindOf(cp[i]) # "nocopy" /\ WAct(i, f)
+          /\ isBusy' = TRUE /\ pc' = [pc EXCEPT ![i] = "saveOpen"] /\ UNCHANGED <<cp, errSince, used, nerrs>>
+       \/ /\ f = "none" /\ KindOf(cp[i]) = "nocopy" /\ DataErr(i) /\ CopyErr(i)
+       \/ /\ Injected(i, f) /\ CopyErr(i)
+    /\ UNCHANGED <<fin, dirty, data, file, tmp, stopper, poisoned, who, kind, ncrash>>
+\* A version that cannot be represented fails after the temp file has been opened and before it is complete; at
+\* which of the three steps is up to the dumper (ruamel represents the whole document before it emits anything).
 SaveOpen(i, f) ==
     /\ pc[i] = "saveOpen"
     /\ \/ /\ f = "none" /\ WAct(i, f)
           /\ tmp' = [tmp EXCEPT ![i] = [st |-> "partial", v |-> cp[i]]] /\ pc' = [pc EXCEPT ![i] = "saveWrite"]
           /\ UNCHANGED <<cp, isBusy, poisoned, errSince, used, nerrs>>
-       \/ /\ f = "io" /\ Injected(i) /\ ErrExit(i, {}) /\ UNCHANGED <<tmp, poisoned>>
-       \* code as is: the module-level ruamel instance keeps the context of the failed dump; every later dump
+       \/ /\ Injected(i, f) /\ ErrExit(i, {}) /\ UNCHANGED <<tmp, poisoned>>
+       \/ /\ f = "none" /\ KindOf(cp[i]) = "norepr" /\ DataErr(i)
+          /\ tmp' = [tmp EXCEPT ![i] = [st |-> "partial", v |-> cp[i]]]
+          /\ ErrExit(i, {}) /\ poisoned' = TRUE
+       \* code as it was: the module-level ruamel instance keeps the context of the failed dump; every later dump
        \* raises 'I/O operation on closed file' right after the temp file has been opened
        \/ /\ f = "none" /\ WAct(i, f) /\ "StaleYamlEmitterAfterError" \in Deviations /\ poisoned
           /\ tmp' = [tmp EXCEPT ![i] = [st |-> "partial", v |-> cp[i]]]
           /\ ErrExit(i, {"StaleYamlEmitterAfterError"}) /\ UNCHANGED <<poisoned, errSince, nerrs>>
-    /\ UNCHANGED <<fin, dirty, data, file, stopper, who, ncrash>>
+    /\ UNCHANGED <<fin, dirty, data, file, stopper, who, kind, ncrash>>
 SaveWrite(i, f) ==
     /\ pc[i] = "saveWrite"
     /\ \/ /\ f = "none" /\ WAct(i, f) /\ pc' = [pc EXCEPT ![i] = "saveClose"]
           /\ UNCHANGED <<cp, isBusy, poisoned, errSince, used, nerrs>>
-       \/ /\ f = "io" /\ Injected(i) /\ ErrExit(i, {}) /\ poisoned' = TRUE
-    /\ UNCHANGED <<fin, dirty, data, file, tmp, stopper, who, ncrash>>
+       \/ /\ Injected(i, f) /\ ErrExit(i, {}) /\ poisoned' = TRUE
+       \/ /\ f = "none" /\ KindOf(cp[i]) = "norepr" /\ DataErr(i) /\ ErrExit(i, {}) /\ poisoned' = TRUE
+    /\ UNCHANGED <<fin, dirty, data, file, tmp, stopper, who, kind, ncrash>>
 SaveClose(i, f) ==
     /\ pc[i] = "saveClose"
-    /\ \/ /\ f = "none" /\ WAct(i, f) /\ pc' = [pc EXCEPT ![i] = "replace"]
+    /\ \/ /\ f = "none" /\ KindOf(cp[i]) = "ok" /\ WAct(i, f) /\ pc' = [pc EXCEPT ![i] = "replace"]
           /\ tmp' = [tmp EXCEPT ![i] = [st |-> "complete", v |-> cp[i]]]
           /\ UNCHANGED <<cp, isBusy, poisoned, errSince, used, nerrs>>
-       \/ /\ f = "io" /\ Injected(i) /\ ErrExit(i, {}) /\ poisoned' = TRUE /\ UNCHANGED tmp
-    /\ UNCHANGED <<fin, dirty, data, file, stopper, who, ncrash>>
+       \/ /\ Injected(i, f) /\ ErrExit(i, {}) /\ poisoned' = TRUE /\ UNCHANGED tmp
+       \/ /\ f = "none" /\ KindOf(cp[i]) # "ok" /\ DataErr(i) /\ ErrExit(i, {}) /\ poisoned' = TRUE /\ UNCHANGED tmp
+    /\ UNCHANGED <<fin, dirty, data, file, stopper, who, kind, ncrash>>
 Replace(i, f) ==
     /\ pc[i] = "replace"
     /\ \/ /\ f = "none" /\ WAct(i, f)
           /\ file' = [file EXCEPT ![i] = IF tmp[i].st = "complete" THEN tmp[i].v ELSE -1]
           /\ tmp' = [tmp EXCEPT ![i] = NoTmp] /\ isBusy' = FALSE /\ cp' = [cp EXCEPT ![i] = 0]
-          /\ pc' = [pc EXCEPT ![i] = IF fin[i] THEN "exited" ELSE "rateSleep"]
+          /\ Resume(i)
           /\ UNCHANGED <<poisoned, errSince, used, nerrs>>
-       \/ /\ f = "io" /\ Injected(i) /\ ErrExit(i, {}) /\ UNCHANGED <<file, tmp, poisoned>>
-    /\ UNCHANGED <<fin, dirty, data, stopper, who, ncrash>>
-W(i, f) == \/ f = "none" /\ (SleepDone(i) \/ WaitDirty(i) \/ WaitBusy(i) \/ ClearDirty(i) \/ Copy(i))
-           \/ SaveOpen(i, f) \/ SaveWrite(i, f) \/ SaveClose(i, f) \/ Replace(i, f)
+       \/ /\ Injected(i, f) /\ ErrExit(i, {}) /\ UNCHANGED <<file, tmp, poisoned>>
+    /\ UNCHANGED <<fin, dirty, data, stopper, who, kind, ncrash>>
+W(i, f) == \/ f = "none" /\ (SleepDone(i) \/ WaitDirty(i) \/ WaitBusy(i) \/ ClearDirty(i))
+           \/ Copy(i, f) \/ SaveOpen(i, f) \/ SaveWrite(i, f) \/ SaveClose(i, f) \/ Replace(i, f)
 
-Next == \/ \E i \in M : SaveAll(i)
+Next == \/ \E i \in M, k \in Kinds : SaveAll(i, k)
         \/ Shutdown \/ Crash \/ ForceRelease
-        \/ \E i \in M, f \in {"none", "io"} : W(i, f)
+        \/ \E i \in M, f \in {"none"} \cup FaultKinds : W(i, f)
 Spec == Init /\ [][Next]_vars
 FairSpec == Spec /\ \A i \in M : WF_vars(W(i, "none"))
 
@@ -173,13 +221,16 @@ TypeOK == /\ pc \in [M -> PCs] /\ fin \in [M -> BOOLEAN] /\ dirty \in [M -> BOOL
           /\ data \in [M -> 0..MaxSaves] /\ cp \in [M -> 0..MaxSaves] /\ file \in [M -> -1..MaxSaves]
           /\ \A i \in M : tmp[i].st \in {"absent", "partial", "complete"} /\ tmp[i].v \in 0..MaxSaves
           /\ isBusy \in BOOLEAN /\ stopper \in BOOLEAN /\ poisoned \in BOOLEAN /\ used \subseteq Deviations
+          /\ Len(kind) = Len(who) /\ \A v \in 1..Len(kind) : kind[v] \in Kinds
 \* at every instant (hence at every crash point) the data file is absent or a complete version handed to its manager
-NeverTorn == \A i \in M : file[i] = 0 \/ (file[i] \in 1..Len(who) /\ who[file[i]] = i)
+\* (one that could be written at all)
+NeverTorn == \A i \in M : file[i] = 0 \/ (file[i] \in 1..Len(who) /\ who[file[i]] = i /\ kind[file[i]] = "ok")
 \* a writer that has run to its end after Shutdown leaves the last saved data on disk
 DurableAfterShutdown == \A i \in M : pc[i] = "exited" => (file[i] = data[i] \/ errSince[i])
 SingleWriter == Cardinality(Holders) <= 1
 BusyWhileWriting == Holders # {} => isBusy
-\* liveness (under FairSpec): a failed write does not stop later saves
+\* liveness (under FairSpec): a failed write - whatever made it fail - does not stop later saves: the latest data
+\* of a manager reaches the disk unless the write of exactly that version failed
 Written == \A i \in M : dirty[i] ~> (file[i] = data[i] \/ errSince[i])
 BusyFree == isBusy ~> ~isBusy
 WriterEnds == \A i \in M : stopper ~> (pc[i] = "exited" \/ ~stopper)
